@@ -60,8 +60,7 @@ Fixpoint match_items (l : list (ratom * nat)) (s : str) : option str :=
   end.
 Definition fullmatch (items : list (ratom * nat)) (s : str) : bool :=
   match match_items items s with Some [] => true | _ => false end.
-Definition ends_lf (s : str) : bool := match rev s with c :: _ => N.eqb c 10 | [] => false end.
-(* re.match("^" items "$", s): a match object or None *)
+(* re.match("^" items "$", s): a match object or None (ends_lf: Model/Tofu.v) *)
 Definition re_match_anchored (items : list (ratom * nat)) (s : str) : option unit :=
   if fullmatch items s || (ends_lf s && fullmatch items (removelast s)) then Some tt else None.
 
